@@ -252,6 +252,19 @@ let run_json () =
             | None -> "ERR")
       | _ -> print_endline "?") (read_lines ())
 
+(* ---- route mode (Model/Route.v): `<METHOD> <xhex raw path>` -> the route and what it carries ---- *)
+let run_route () =
+  List.iter (fun line ->
+      match List.filter (fun s -> s <> "") (String.split_on_char ' ' (String.trim line)) with
+      | [m; x] ->
+        let meth = match m with "GET" -> MGet | "POST" -> MPost | "DELETE" -> MDelete | _ -> MOther in
+        print_endline (match route_path meth (bytes_of_xhex x) with
+            | PVersion -> "version" | PCat -> "cat" | PHead t -> "head " ^ xhex_of_bytes t
+            | PCasGet h -> "casget " ^ xhex_of_bytes h | PCasPost -> "caspost" | PImport -> "import"
+            | PItemGet t -> "get " ^ xhex_of_bytes t | PItemRemove t -> "remove " ^ xhex_of_bytes t
+            | PAppend t -> "append " ^ xhex_of_bytes t | PNotFound -> "notfound")
+      | _ -> print_endline "?") (read_lines ())
+
 (* ---- service mode (Model/Service.v): command calls and generator lifecycles ---- *)
 let print_eframe e =
   Printf.printf "E %s %s %s %s %s %s %s %d\n" (xhex_of_bytes e.e_topic) (str_of_id e.e_ctx) (str_of_id e.e_hid)
@@ -334,6 +347,7 @@ let () =
   | [_; "restart"; by_ctx] -> run_restart (by_ctx = "1")
   | [_; "service"] -> run_service ()
   | [_; "json"] -> run_json ()
+  | [_; "route"] -> run_route ()
   | [_; "gen-sched"; locked; seed; steps; finish] ->
     let cfg = Schedgen.parse_cfg (read_lines ()) in
     List.iter print_endline
